@@ -71,6 +71,8 @@ class CaseCtx:
         self.sigs: List[str] = []
         self.skipped: Optional[str] = None
         self.notes: List[str] = []
+        self.samples: List[Any] = []
+        self.stats: Dict[str, List[float]] = {}
 
     # -- monitors call these ------------------------------------------------
     def violation(self, key: str, msg: str, **detail: Any) -> None:
@@ -91,6 +93,22 @@ class CaseCtx:
     def skip(self, reason: str) -> None:
         self.skipped = reason
 
+    def sample(self, obj: Any) -> None:
+        """An actual explored case written out for the evidence file (first one per case is kept)."""
+        if not self.samples:
+            self.samples.append(jsonable(obj))
+
+    def stat(self, name: str, value: float) -> None:
+        """Observed extreme values (min, max, count), aggregated over the run into the evidence."""
+        v = float(value)
+        if v != v:
+            return
+        cur = self.stats.get(name)
+        if cur is None:
+            self.stats[name] = [v, v, 1]
+        else:
+            cur[0], cur[1], cur[2] = min(cur[0], v), max(cur[1], v), cur[2] + 1
+
     def note(self, text: str) -> None:
         if len(self.notes) < 5:
             self.notes.append(text[:500])
@@ -103,6 +121,8 @@ class CaseCtx:
             "sigs": self.sigs,
             "skip": self.skipped,
             "notes": self.notes,
+            "samples": self.samples,
+            "stats": self.stats,
         }
 
 
